@@ -744,7 +744,7 @@ impl Detached {
 
 /// raw admission word of a cell
 pub fn admission_word(cell: &ActorCell) -> usize {
-    cell.inner.message_admission.load(Ordering::SeqCst)
+    cell.inner.message_admission.load_raw()
 }
 
 pub fn num_children(cell: &ActorCell) -> usize {
@@ -754,4 +754,46 @@ pub fn num_children(cell: &ActorCell) -> usize {
 /// Deliver a supervision event to a cell's supervision port from outside (environment action)
 pub fn inject_supervision(cell: &ActorCell, evt: SupervisionEvent) -> bool {
     cell.send_supervisor_evt(evt).is_ok()
+}
+
+// ------------------------------------------------------------------------------------------------
+// Traced atomic: every access is a schedule point of its own (parks *before* the access), so that
+// the thread controller can interleave other threads at every access of the word, however the
+// surrounding code is structured.
+// ------------------------------------------------------------------------------------------------
+
+/// An `AtomicUsize` whose every operation is preceded by a `point("atom", 0, <op>)`.
+/// Ops: 1 load, 2 fetch_add, 3 fetch_sub, 4 fetch_or, 5 compare_exchange_weak.
+#[derive(Debug, Default)]
+pub struct TracedUsize(std::sync::atomic::AtomicUsize);
+
+impl TracedUsize {
+    pub const fn new(v: usize) -> Self {
+        Self(std::sync::atomic::AtomicUsize::new(v))
+    }
+    /// untraced read for observers
+    pub fn load_raw(&self) -> usize {
+        self.0.load(Ordering::SeqCst)
+    }
+    pub fn load(&self, o: Ordering) -> usize {
+        point("atom", 0, 1);
+        self.0.load(o)
+    }
+    pub fn fetch_add(&self, v: usize, o: Ordering) -> usize {
+        point("atom", 0, 2);
+        self.0.fetch_add(v, o)
+    }
+    pub fn fetch_sub(&self, v: usize, o: Ordering) -> usize {
+        point("atom", 0, 3);
+        self.0.fetch_sub(v, o)
+    }
+    pub fn fetch_or(&self, v: usize, o: Ordering) -> usize {
+        point("atom", 0, 4);
+        self.0.fetch_or(v, o)
+    }
+    pub fn compare_exchange_weak(&self, cur: usize, new: usize, s: Ordering, f: Ordering) -> Result<usize, usize> {
+        point("atom", 0, 5);
+        // the strong form: a spurious failure cannot be forced by a scheduler, and a retry is harmless
+        self.0.compare_exchange(cur, new, s, f)
+    }
 }
